@@ -52,12 +52,9 @@ Proof.
 Qed.
 
 (* ------------------------------------------------------------------ Axi2ClkFSM *)
-Definition a2c_mk (st tgt c x l : Z) : a2c_sys :=
-  {| cs_st := {| Axi2ClkFSM_s_state := st; Axi2ClkFSM_s_target := tgt |}; cs_count := c; cs_clk := x; cs_load := l |}.
-
-(* a handshake in IDLE: the counter is kept (pinned commit, C16-F2) or cleared (repaired code); the probe says which *)
+(* a handshake in IDLE: the target is latched and the counter is cleared, whatever it held (repair 03e7104 of C16-F2) *)
 Lemma a2c_step_idle_hs cw tgt c x l t :
-  a2c_step cw (a2c_mk 0 tgt c x l) (true, t) = a2c_mk 1 t (if a2c_clears_on_handshake then 0 else c) x 0.
+  a2c_step cw (a2c_mk 0 tgt c x l) (true, t) = a2c_mk 1 t 0 x 0.
 Proof. reflexivity. Qed.
 Lemma a2c_step_idle_nohs cw tgt c x l t : a2c_step cw (a2c_mk 0 tgt c x l) (false, t) = a2c_mk 0 tgt 0 0 0.
 Proof. reflexivity. Qed.
@@ -93,58 +90,64 @@ Proof.
     rewrite (IH (c + 1) 0 ins rest); try lia; try reflexivity; cbn in Hlen; lia.
 Qed.
 
-(* A handshake in IDLE with target n >= 1 produces exactly n clk_out pulses, then load_outs for exactly one cycle, then idle —
-   whatever the inputs during those 2n+2 cycles (further handshakes are ignored) — provided the run starts from a cleared
-   counter: either the counter is 0, or the FSM clears it at the handshake (repaired code) *)
-Lemma a2c_pulse_train_gen cw (n : nat) c ins :
-  a2c_clears_on_handshake = true \/ c = 0 ->
-  0 <= cw -> (1 <= n)%nat -> Z.of_nat n < 2 ^ cw -> length ins = (2 * n + 2)%nat ->
-  a2c_trace cw (a2c_idle c) ((true, Z.of_nat n) :: ins) = a2c_expected n.
+(* A handshake taken in IDLE with target n >= 1 — whatever target, counter value and load_outs level the FSM was left with —
+   produces exactly n clk_out pulses, then load_outs for exactly one cycle, then idle, whatever the inputs during those
+   2n+2 cycles (further handshakes are ignored): every run starts from zero *)
+Lemma a2c_run_from_idle cw (n : nat) tgt c l ins rest :
+  0 <= cw -> (1 <= n)%nat -> Z.of_nat n < 2 ^ cw -> length ins = (2 * n + 1)%nat ->
+  a2c_trace cw (a2c_mk 0 tgt c 0 l) ((true, Z.of_nat n) :: ins ++ rest) =
+  (0, 0) :: concat (repeat [(1, 0); (0, 0)] n) ++ [(0, 1)] ++ a2c_trace cw (a2c_mk 0 (Z.of_nat n) (Z.of_nat n) 0 1) rest.
 Proof.
-  intros Hclr Hcw Hn Hlt Hlen.
-  assert (Hs : exists body e1 e2, ins = body ++ [e1; e2] /\ length body = (2 * n)%nat).
+  intros Hcw Hn Hlt Hlen.
+  assert (Hs : exists body e1, ins = body ++ [e1] /\ length body = (2 * n)%nat).
   { exists (firstn (2 * n) ins). pose proof (firstn_skipn (2 * n) ins) as Hfs.
-    assert (Hl : length (skipn (2 * n) ins) = 2%nat) by (rewrite skipn_length; lia).
-    destruct (skipn (2 * n) ins) as [|e1 [|e2 [|? ?]]]; cbn in Hl; try lia.
-    exists e1, e2. split; [symmetry; exact Hfs|]. rewrite firstn_length. lia. }
-  destruct Hs as (body & e1 & e2 & -> & Hb).
-  unfold a2c_expected. cbn [a2c_trace]. change (a2c_idle c) with (a2c_mk 0 0 c 0 0).
-  rewrite a2c_step_idle_hs.
-  replace (if a2c_clears_on_handshake then 0 else c) with 0
-    by (destruct Hclr as [H | H]; [rewrite H | subst c; destruct a2c_clears_on_handshake]; reflexivity).
-  cbn [a2c_mk cs_clk cs_load]. f_equal.
+    assert (Hl : length (skipn (2 * n) ins) = 1%nat) by (rewrite skipn_length; lia).
+    destruct (skipn (2 * n) ins) as [|e1 [|? ?]]; cbn in Hl; try lia.
+    exists e1. split; [symmetry; exact Hfs|]. rewrite firstn_length. lia. }
+  destruct Hs as (body & e1 & -> & Hb).
+  cbn [a2c_trace]. rewrite a2c_step_idle_hs. cbn [a2c_mk cs_clk cs_load]. f_equal.
   change {| cs_st := {| Axi2ClkFSM_s_state := 1; Axi2ClkFSM_s_target := Z.of_nat n |}; cs_count := 0; cs_clk := 0; cs_load := 0 |}
     with (a2c_mk 1 (Z.of_nat n) 0 0 0).
-  rewrite (a2c_pulses_from cw (Z.of_nat n) Hcw Hlt n 0 0 body [e1; e2]); try lia.
-  f_equal. cbn [a2c_trace]. rewrite a2c_step_end. cbn [a2c_mk cs_clk cs_load]. f_equal.
-  change {| cs_st := {| Axi2ClkFSM_s_state := 0; Axi2ClkFSM_s_target := Z.of_nat n |}; cs_count := Z.of_nat n; cs_clk := 0; cs_load := 1 |}
-    with (a2c_mk 0 (Z.of_nat n) (Z.of_nat n) 0 1).
+  rewrite <- !app_assoc.
+  rewrite (a2c_pulses_from cw (Z.of_nat n) Hcw Hlt n 0 0 body ([e1] ++ rest)); try lia.
+  f_equal; try (cbn [app a2c_trace]; rewrite a2c_step_end; cbn [a2c_mk cs_clk cs_load]; reflexivity).
+Qed.
+
+Lemma a2c_pulse_train cw (n : nat) c ins : 0 <= cw -> (1 <= n)%nat -> Z.of_nat n < 2 ^ cw -> length ins = (2 * n + 2)%nat ->
+  a2c_trace cw (a2c_idle c) ((true, Z.of_nat n) :: ins) = a2c_expected n.
+Proof.
+  intros Hcw Hn Hlt Hlen.
+  assert (Hs : exists body e2, ins = body ++ [e2] /\ length body = (2 * n + 1)%nat).
+  { exists (firstn (2 * n + 1) ins). pose proof (firstn_skipn (2 * n + 1) ins) as Hfs.
+    assert (Hl : length (skipn (2 * n + 1) ins) = 1%nat) by (rewrite skipn_length; lia).
+    destruct (skipn (2 * n + 1) ins) as [|e2 [|? ?]]; cbn in Hl; try lia.
+    exists e2. split; [symmetry; exact Hfs|]. rewrite firstn_length. lia. }
+  destruct Hs as (body & e2 & -> & Hb).
+  change (a2c_idle c) with (a2c_mk 0 0 c 0 0).
+  rewrite (a2c_run_from_idle cw n 0 c 0 body [e2]) by assumption.
+  unfold a2c_expected. f_equal. f_equal. cbn [app a2c_trace]. f_equal.
   destruct e2 as [[] t]; [rewrite a2c_step_idle_hs | rewrite a2c_step_idle_nohs]; reflexivity.
 Qed.
 
-Lemma a2c_pulse_train cw (n : nat) ins : 0 <= cw -> (1 <= n)%nat -> Z.of_nat n < 2 ^ cw -> length ins = (2 * n + 2)%nat ->
-  a2c_trace cw (a2c_idle 0) ((true, Z.of_nat n) :: ins) = a2c_expected n.
-Proof. intros. apply a2c_pulse_train_gen; auto. Qed.
-
-(* BACK-TO-BACK requests (a handshake in the first idle cycle after a run, counter still at the previous target).
-   Pinned commit (C16-F2): the counter is cleared only in an IDLE cycle WITHOUT a handshake, so the request starts from the
-   stale count and does not stop at its target (witness: after a 2-pulse run, a request for 1 pulse gives 5 pulses in the next
-   10 cycles on an 8-bit counter, and no load_outs).  Repaired code: the pulse train is exact from ANY counter value.
-   The statement is selected by the probe of the regenerated FSM; exactly one branch is the live one. *)
-Definition a2c_back_to_back_statement : Prop :=
-  if a2c_clears_on_handshake
-  then forall cw (n : nat) c ins, 0 <= cw -> (1 <= n)%nat -> Z.of_nat n < 2 ^ cw -> length ins = (2 * n + 2)%nat ->
-       a2c_trace cw (a2c_idle c) ((true, Z.of_nat n) :: ins) = a2c_expected n
-  else let first := (true, 2) :: repeat (false, 0) 5 in            (* handshake, 2 pulses, END *)
-       let second := (true, 1) :: repeat (false, 0) 10 in          (* handshake in the first IDLE cycle after END *)
-       a2c_trace 8 (a2c_idle 0) (first ++ [(false, 0)]) = a2c_expected 2 /\
-       skipn 7 (map fst (a2c_trace 8 (a2c_idle 0) (first ++ second))) = [1; 0; 1; 0; 1; 0; 1; 0; 1; 0] /\
-       Forall (fun p => snd p = 0) (skipn 6 (a2c_trace 8 (a2c_idle 0) (first ++ second))).
-
-Lemma a2c_back_to_back : a2c_back_to_back_statement.
+(* BACK-TO-BACK: a second request presented in the very first idle cycle after a run (the counter still holds the previous
+   target) is served exactly as well: n1 pulses, load_outs, then immediately n2 pulses, load_outs, idle. *)
+Lemma a2c_back_to_back cw (n1 n2 : nat) c ins1 ins2 :
+  0 <= cw -> (1 <= n1)%nat -> (1 <= n2)%nat -> Z.of_nat n1 < 2 ^ cw -> Z.of_nat n2 < 2 ^ cw ->
+  length ins1 = (2 * n1 + 1)%nat -> length ins2 = (2 * n2 + 2)%nat ->
+  a2c_trace cw (a2c_idle c) ((true, Z.of_nat n1) :: ins1 ++ (true, Z.of_nat n2) :: ins2) =
+  (0, 0) :: concat (repeat [(1, 0); (0, 0)] n1) ++ [(0, 1)] ++ a2c_expected n2.
 Proof.
-  unfold a2c_back_to_back_statement. destruct a2c_clears_on_handshake eqn:E.
-  - (* live branch on code that clears at the handshake; impossible (E computes to false = true) on the pinned code *)
-    first [ exfalso; vm_compute in E; discriminate E | intros; apply a2c_pulse_train_gen; auto ].
-  - first [ exfalso; vm_compute in E; discriminate E | vm_compute; repeat split; repeat constructor ].
+  intros Hcw H1 H2 L1 L2 Len1 Len2.
+  change (a2c_idle c) with (a2c_mk 0 0 c 0 0).
+  rewrite (a2c_run_from_idle cw n1 0 c 0 ins1 ((true, Z.of_nat n2) :: ins2)) by assumption.
+  do 3 f_equal.
+  assert (Hs : exists body e2, ins2 = body ++ [e2] /\ length body = (2 * n2 + 1)%nat).
+  { exists (firstn (2 * n2 + 1) ins2). pose proof (firstn_skipn (2 * n2 + 1) ins2) as Hfs.
+    assert (Hl : length (skipn (2 * n2 + 1) ins2) = 1%nat) by (rewrite skipn_length; lia).
+    destruct (skipn (2 * n2 + 1) ins2) as [|e2 [|? ?]]; cbn in Hl; try lia.
+    exists e2. split; [symmetry; exact Hfs|]. rewrite firstn_length. lia. }
+  destruct Hs as (body & e2 & -> & Hb).
+  rewrite (a2c_run_from_idle cw n2 (Z.of_nat n1) (Z.of_nat n1) 1 body [e2]) by assumption.
+  unfold a2c_expected. f_equal. f_equal. cbn [app a2c_trace]. f_equal.
+  destruct e2 as [[] t]; [rewrite a2c_step_idle_hs | rewrite a2c_step_idle_nohs]; reflexivity.
 Qed.
